@@ -4,6 +4,7 @@
        -> one token per event:  <obs>/<tpaused><rpaused><payload parser open><eof><has_more>.<rsize>.<low>
           obs: - nothing | s skipped | b blocked | d<hex> | e<kind>
    HS <mode> <hex>:<maxlen> ...   ZLibDecompressor calls -> per call  <hex>/<avail><eof>  | ERR | FUEL
+   GATE <7 bits>                  dg_srv_closing_feeds nonempty has_req at_eof has_tr has_parser custom_pp upgraded -> 0|1
    RR <cms> <hex> <hex> ...       BaseRequest.read loop over readany() results -> TOOLARGE.<peak> | OK.<len>.<peak> *)
 let kind = function
   | EContentEncoding -> "ContentEncoding" | ETransferEncoding -> "TransferEncoding" | ELineTooLong -> "LineTooLong"
@@ -57,5 +58,8 @@ let handle line =
     (match request_read (num cms) (List.map bytes_of_hex chunks) [] N0 with
      | (None, peak) -> "TOOLARGE." ^ string_of_int (int_of_n peak)
      | (Some b, peak) -> Printf.sprintf "OK.%d.%d" (List.length b) (int_of_n peak))
+  | ["GATE"; bits] when String.length bits = 7 ->
+    let b i = bits.[i] = '1' in
+    b01 (dg_srv_closing_feeds (b 0) (b 1) (b 2) (b 3) (b 4) (b 5) (b 6))
   | _ -> "BADREQ"
 let () = serve handle
